@@ -108,7 +108,7 @@ pub fn generate(seed: u64, tier: Tier) -> History {
     let refs_ext = format!("{}{}", if swarm.chance(1, 4) { ".md" } else { "" }, *swarm.pick(&["", "", "", "|helix", "|models", "|helix+models"]));
     let marathon = swarm.chance(1, if tier == Tier::Thorough { 40 } else { 300 });
     // a long session on a big note: tens of thousands of removed nodes and line slots
-    let heavy = !big_library && !empty_start && swarm.chance(1, if tier == Tier::Thorough { 300 } else { 600 });
+    let heavy = !big_library && !empty_start && swarm.chance(1, if tier == Tier::Thorough { 300 } else { 1500 });
     let n_ops = if heavy { swarm.range(350, 420) } else if marathon && !big_library { swarm.range(120, 320) } else if big_library { swarm.range(1, 5) } else { swarm.range(1, max_ops) };
     let poison_pct = *swarm.pick(&[0u32, 0, 0, 4, 8]);
     let restart_pct = if heavy { 0 } else { *swarm.pick(&[0u32, 0, 5, 10, 25]) };
